@@ -773,6 +773,85 @@ def product_walk(fn, init, elem_tr, edge_tr=None, start_block=None, limit=200000
     return seen
 
 
+def product_walk_from(fn, start_pos, init, elem_tr, edge_tr=None, limit=200000):
+    """like product_walk, but starts *after* program point start_pos = (block, index) (index -1: block start) and reports
+    every (pos, state_before_elem) visited: returns (visits, exits) where visits = {(pos, state)} and exits = set of states
+    in which the function exit is reached.  elem_tr(state, pos, e) -> state | None (None = stop this path here)."""
+    b0, i0 = start_pos
+    seen = set()
+    visits = set()
+    exits = set()
+    work = [(b0, i0 + 1, init)]
+    while work:
+        if len(seen) > limit:
+            raise AnalysisBroken('product_walk_from explodes in %s' % fn.q)
+        b, i_from, st = work.pop()
+        if (b, i_from, st) in seen:
+            continue
+        seen.add((b, i_from, st))
+        blk = fn.blocks[b]
+        stopped = False
+        for i in range(i_from, len(blk['e'])):
+            e = blk['e'][i]
+            visits.add(((b, i), st))
+            st = elem_tr(st, (b, i), e)
+            if st is None:
+                stopped = True
+                break
+        if stopped or blk.get('noret'):
+            continue
+        if b == fn.exit:
+            exits.add(st)
+            continue
+        for si, x in enumerate(blk['succ']):
+            if x is None:
+                continue
+            st2 = edge_tr(st, b, si) if edge_tr else st
+            if st2 is None:
+                continue
+            work.append((x, 0, st2))
+    return visits, exits
+
+
+def bool_vars_tracker(fn):
+    """track what a path knows about the truth of every local variable that occurs as a branch atom: state is a tuple of
+    (vid, 'T'|'F') facts.  Returns (on_elem(state, e) -> state, on_edge(state, b, si) -> state | None)."""
+    defs = Defs(fn)
+    tested = set()
+    for b, blk in fn.blocks.items():
+        if len(blk['succ']) == 2 and blk.get('term') and 'c' in blk['term']:
+            for si in (0, 1):
+                for (sx, truth) in fn.edge_conds(b, si):
+                    n = fn.n(fn.strip(sx))
+                    if n.get('k') == 'var' and 'glob' not in n:
+                        tested.add(n['v'])
+
+    def on_elem(state, e):
+        if isinstance(e, int) and e in defs.defs_at:
+            d = dict(state)
+            for v, dn, val in defs.defs_at[e]:
+                if v in tested:
+                    c = fn.cv(val) if val is not None else None
+                    if c is None:
+                        d.pop(v, None)
+                    else:
+                        d[v] = 'T' if c else 'F'
+            return tuple(sorted(d.items()))
+        return state
+
+    def on_edge(state, b, si):
+        d = dict(state)
+        for (sx, truth) in fn.edge_conds(b, si):
+            n = fn.n(fn.strip(sx))
+            if n.get('k') == 'var' and n.get('v') in tested:
+                want = 'T' if truth else 'F'
+                if d.get(n['v'], want) != want:
+                    return None
+                d[n['v']] = want
+        return tuple(sorted(d.items()))
+    return on_elem, on_edge
+
+
 def var_truth_tracker(fn, vid):
     """(elem_tr, edge_tr) pieces tracking what a path knows about the truth value of local variable `vid`:
     'T' / 'F' / 'U'.  Definitions by a constant give T/F, any other definition gives U; branch atoms on the variable
